@@ -1,8 +1,48 @@
 import warnings
-from typing import Type
+from typing import Type, Any, Dict, Tuple
 
 
 def _raise_warning(msg: str, category: Type[Warning]) -> None:
     warnings.simplefilter(action='always', category=category)
     warnings.warn(message=msg, category=category, stacklevel=2)
     warnings.simplefilter(action='default', category=category)
+
+
+class _Shown:
+    """
+        Wraps a value that is only going to be formatted (in a trace line or in an error message):
+        repr() and str() of the wrapper never raise, they fall back to object.__repr__ of the value.
+        A decorator that merely reports what passes through it must not change what the decorated function does.
+
+        >>> class Bad:
+        ...     def __repr__(self): raise ValueError('no repr')
+        >>> f'{_shown_args((1, "a"))} {_shown_kwargs({"k": 2})} {_Shown(3)!r}'
+        "(1, 'a') {'k': 2} 3"
+        >>> f'{_shown_args((Bad(),))}'.startswith('(<')
+        True
+    """
+
+    __slots__ = ('_value',)
+
+    def __init__(self, value: Any) -> None:
+        self._value = value
+
+    def __repr__(self) -> str:
+        try:
+            return repr(self._value)
+        except Exception:
+            return object.__repr__(self._value)
+
+    def __str__(self) -> str:
+        try:
+            return str(self._value)
+        except Exception:
+            return object.__repr__(self._value)
+
+
+def _shown_args(args: Tuple[Any, ...]) -> Tuple[_Shown, ...]:
+    return tuple(_Shown(a) for a in args)
+
+
+def _shown_kwargs(kwargs: Dict[str, Any]) -> Dict[str, _Shown]:
+    return {k: _Shown(v) for k, v in kwargs.items()}
